@@ -431,6 +431,20 @@ def gen_states(ctx, thorough):
                 am = qc.rand_rbm_params(rng, n, h, scale)
                 ph = qc.rand_rbm_params(rng, n, h, scale) if kind == "cplx" else None
             yield kind, n, h, a, scale, am, ph
+    # large unnormalised probabilities: every |psi|^2 (rho diagonal) is finite but the
+    # product of two of them is not, so the estimator must divide pair by pair.
+    for kind in ("pos", "cplx", "dens"):
+        n = 2
+        h = 14 if kind != "dens" else 8
+        a = 2 if kind == "dens" else 0
+        if kind == "dens":
+            am = qc.rand_prbm_params(rng, n, h, a, 0.3)
+            ph = qc.rand_prbm_params(rng, n, h, a, 0.3)
+        else:
+            am = qc.rand_rbm_params(rng, n, h, 0.3)
+            ph = qc.rand_rbm_params(rng, n, h, 0.3) if kind == "cplx" else None
+        am["c"] = [27.0 + 3.0 * rng.random() for _ in range(h)]
+        yield kind, n, h, a, 0.3, am, ph
 
 
 def run(ctx):
